@@ -85,8 +85,8 @@ def cases():
         over.update(STEER.get(b, {}))
         p = S.profile_for([b], **over)
         prog = draw(S.programs(p))
-        if b == "kotlin" and draw(st.integers(0, 3)) == 0:
-            S.add_trait(draw, prog)      # bridged traits: kotlin is the one backend that supports them
+        if b in ("kotlin", "c") and draw(st.integers(0, 3)) == 0:
+            S.add_trait(draw, prog)      # bridged traits: kotlin and c are the backends that accept them
         return b, prog
     return c()
 
